@@ -910,6 +910,28 @@ public:
                         return;
                     }
                     break;
+                case csv_parse_state::quoted_string: 
+                    // Input ends inside a quoted field: take what was read as its value,
+                    // so that the record that was begun is also ended.
+                    before_value(local_visitor, ec);
+                    state_ = csv_parse_state::before_last_quoted_field;
+                    break;
+                case csv_parse_state::between_values:
+                    // Input ends after the closing quote of a field: same as a line end there.
+                    if (trim_leading_ || trim_trailing_)
+                    {
+                        trim_string_buffer(trim_leading_,trim_trailing_);
+                    }
+                    if (!(ignore_empty_values_ && buffer_.empty()))
+                    {
+                        before_value(local_visitor, ec);
+                        state_ = csv_parse_state::before_last_quoted_field;
+                    }
+                    else
+                    {
+                        state_ = csv_parse_state::end_record;
+                    }
+                    break;
                 case csv_parse_state::end_record:
                     if (column_index_ > 0)
                     {
